@@ -463,7 +463,7 @@ pub fn check(ctx: &Ctx, rep: &mut Report) {
         check_template(ctx, rep, probe_n, Dialect::Postgres, " arr[$1] ", &["bracket-subscript-placeholder"], &mut rng);
     }
     // random longer templates, incl. bracket pieces
-    let nrand = ctx.size(150_000, 1_000_000) / ctx.nshards;
+    let nrand = ctx.size(150_000, 6_000_000) / ctx.nshards;
     for r in 0..nrand {
         let n = total + r;
         if !ctx.wants(n) {
@@ -521,7 +521,7 @@ pub fn check(ctx: &Ctx, rep: &mut Report) {
     }
     // inject_parameters over (sql, values) pairs produced by build() of generated statements
     let base = 1u64 << 44;
-    let ninj = ctx.size(150_000, 2_000_000) / ctx.nshards;
+    let ninj = ctx.size(150_000, 8_000_000) / ctx.nshards;
     for r in 0..ninj {
         let n = base + r;
         if !ctx.wants(n) {
